@@ -24,7 +24,9 @@ func VerifC15PlaintextWidth() {
 		text = "a://b" + text
 	}
 	width := verifrt.Int("width", 1, verifrt.Param("maxw", 8))
-	out, _ := renderWithLinks(text, width)
+	m, _, err := NewMarkup(text)
+	verifrt.Assert(err == nil && m != nil, "markup-built")
+	out := m.Render(width)
 	sc := verifrt.Parse(out)
 	verifrt.Assert(sc.OK, "render-well-formed")
 	fits := true
@@ -37,43 +39,20 @@ func VerifC15PlaintextWidth() {
 	verifrt.Reach("end")
 }
 
-func encWidth(w int) string {
-	return string([]byte{byte(w), byte(w >> 8), byte(w >> 16), byte(w >> 24), byte(w >> 32), byte(w >> 40), byte(w >> 48), byte(w >> 56)})
-}
-
-func VerifStubRender(text string, width int) (string, []string) { return encWidth(width), []string{} }
-
-func VerifC15PlaintextCache() {
-	text := "plain text with https://a.b/c inside"
-	cw := int(verifrt.Int64("cachedWidth"))
-	pre, _ := renderWithLinks(text, cw)
-	m := &Markup{text: text, cached: pre, cachedWidth: cw}
-	for i := 0; i < verifrt.Param("calls", 3); i++ {
-		w := int(verifrt.Int64("w"))
-		got := m.Render(w)
-		ref, _ := renderWithLinks(text, w)
-		verifrt.Assert(got == ref, "render-equals-cache-free-rendering")
-		verifrt.Assert(m.cachedWidth == w && m.cached == ref, "cache-invariant-reestablished")
-	}
-	m2, _, err := NewMarkup(text)
-	ref80, _ := renderWithLinks(text, 80)
-	verifrt.Assert(err == nil && m2.cachedWidth == 80 && m2.cached == ref80, "constructor-establishes-cache-invariant")
-	verifrt.Reach("end")
-}
-
-// VerifC15PlaintextCacheReal: the same lemma on the real renderer (no stub),
+// VerifC15PlaintextCacheReal: "the same text regardless of the widths it was
+// rendered at before", on the real renderer through the public interface,
 // for documents with blank edge lines, over a small domain of symbolic widths.
 func VerifC15PlaintextCacheReal() {
 	text := []string{"\nalpha beta gamma", "alpha beta\n\n", "\n\nsee https://a.b/c now\n", "one two"}[verifrt.Choice("doc", 4)]
 	maxw := verifrt.Param("maxw", 12)
-	cw := verifrt.Int("cachedWidth", 1, maxw)
-	pre, _ := renderWithLinks(text, cw)
-	m := &Markup{text: text, cached: pre, cachedWidth: cw}
+	m, _, err := NewMarkup(text)
+	verifrt.Assert(err == nil && m != nil, "markup-built")
+	_ = m.Render(verifrt.Int("cachedWidth", 1, maxw))
 	for i := 0; i < verifrt.Param("calls", 2); i++ {
 		w := verifrt.Int("w", 1, maxw)
 		got := m.Render(w)
-		ref, _ := renderWithLinks(text, w)
-		verifrt.Assert(got == ref, "render-equals-cache-free-rendering")
+		fresh, _, _ := NewMarkup(text)
+		verifrt.Assert(got == fresh.Render(w), "render-equals-cache-free-rendering")
 	}
 	verifrt.Reach("end")
 }
